@@ -549,7 +549,8 @@ def run_instance(inst, tier='quick', seed=0):
         for i in range(n):
             res['obligations'] += 1
             if len(used_values[i]) < 2:
-                _viol(res, 'declared', dict(kind='variable_with_one_value', encoder=f'{kind}{i_enc}', settings=pool.settings_label(s), var=i),
+                _viol(res, 'declared', dict(kind='variable_with_one_value', encoder=f'{kind}{i_enc}', encoder_class=enc_name.split('(')[0],
+                                            encoder_kind=kind, settings=pool.settings_label(s), var=i),
                       cfg, dict(var=i), dict(used=sorted(used_values[i]), n_opts=n_opts[i]), '>= 2 used values per declared variable')
             else:
                 res['discharged'] += 1
